@@ -24,11 +24,11 @@ BOUNDS = {'quick': {'sections': '<= 3 below the root, any parent structure (dept
           'thorough': {'sections': '<= 4 below the root (depth <= 4)', 'titles': POOL, 'results': 'one per section + one on the root'}}
 ASSUMPTIONS = ['titles are drawn from a pool chosen by reading the code (ordinary, dotted, equal siblings, the reserved page name, empty, '
                'containing a slash, dot-dot); the solver chooses shape and titles',
-               'results are stub TestResults represented without templates (anchor + description); figures are outside',
+               'results are stub TestResults (anchor + description); up to three of them (solver-chosen) carry a plot template, some of them the same plot; MplPlot.save is a stub that writes a small file',
                'sections with the same chain of titles share one page (their texts are concatenated): accepted as long as every result appears once',
                'optionally (solver-chosen) the same Rst object formats a second, unrelated report between formatting and writing the first',
                'a toctree entry is resolved relative to the directory of the page that contains it (Sphinx semantics)']
-OUTSIDE = ['figure files (matplotlib)', "Sphinx's own interpretation of exotic titles", 'titles outside the pool']
+OUTSIDE = ['the content of figure files (matplotlib rendering)', "Sphinx's own interpretation of exotic titles", 'titles outside the pool']
 EXPLANATION = ('bounded symbolic execution (symrun + z3: solver-chosen tree shapes and titles) of the real report writer on a temporary '
                'directory; written pages are read back and compared with the tree')
 
@@ -44,6 +44,22 @@ def _mk_result(tag):
         def __bool__(self):
             return True
     return TestResultStub(_T(name=f'test-{tag}', description=f'RESULT-TAG-{tag}-END'))
+
+
+class _PlotRepresenter:
+    """representer giving each stub result one plot; results whose tag is in `same` get the SAME plot (equal fingerprint)"""
+    def __init__(self, with_plot, same):
+        self.with_plot, self.same = with_plot, same
+
+    def __call__(self, result, verbosity=None):
+        import numpy as np
+        from valjean.javert.templates import PlotTemplate, SubPlotElements, CurveElements
+        tag = result.test.name
+        if tag not in self.with_plot:
+            return []
+        k = 0 if tag in self.same else 1 + sorted(self.with_plot).index(tag)
+        curve = CurveElements(values=np.array([1.0 + k, 2.0]), bins=[np.array([0.0, 1.0, 2.0])], legend='c')
+        return [PlotTemplate(subplots=[SubPlotElements(curves=[curve], axnames=('x', 'y'))])]
 
 
 def _valid(title):
@@ -78,7 +94,19 @@ def make_harness(k):
         base = tempfile.mkdtemp(prefix='verif_c20_')
         out = os.path.join(base, 'report')
         try:
-            rst = Rst(Representation(EmptyRepresenter()))
+            # figures: which results carry a plot, and which of them carry the very same plot, is solver-chosen;
+            # MplPlot.save is a stub that writes a small file (matplotlib rendering is outside the claim)
+            tags = ['test-root'] + [f'test-s{i}' for i in range(k)]
+            if k <= 2:
+                with_plot = {t for t in tags[:3] if ex.flag(f'plot-on-{t}')}
+                same = {t for t in sorted(with_plot) if len(with_plot) > 1 and ex.flag(f'same-plot-{t}')}
+            else:           # larger trees: one fixed arrangement (two results share a plot, a third has its own)
+                with_plot = {'test-root', 'test-s0', f'test-s{k - 1}'}
+                same = {'test-root', 'test-s0'}
+            rst = Rst(Representation(_PlotRepresenter(with_plot, same) if with_plot else EmptyRepresenter()))
+            import valjean.javert.mpl as mplmod
+            saved_save = mplmod.MplPlot.save
+            mplmod.MplPlot.save = lambda self, name='fig.png': open(name, 'wb').write(b'PNG')
             raised = None
             try:
                 fmt = rst.format_report(report=root, author='me', version='0')
@@ -137,7 +165,21 @@ def make_harness(k):
                 home = os.path.join('report', 'index.rst') if i < 0 else os.path.join('report', *chain(i)) + '.rst'
                 if kids:
                     ex.check('.. toctree::' in pages[home], 'sections-with-subsections-have-a-table-of-contents')
+            # every referenced figure exists, nothing else is in figures/
+            refs = set()
+            for p, txt in pages.items():
+                refs.update(re.findall(r'\.\. image:: /figures/(\S+)', txt))
+            figdir = os.path.join(out, 'figures')
+            have = set(os.listdir(figdir)) if os.path.isdir(figdir) else set()
+            ex.check(refs <= have, 'every-referenced-figure-exists', detail=f'missing {sorted(refs - have)}')
+            ex.check(have <= refs, 'no-figure-without-a-reference', detail=f'extra {sorted(have - refs)}')
+            n_distinct = len(with_plot - same) + (1 if same else 0)
+            ex.check(len(refs) == n_distinct, 'one-figure-per-distinct-plot', detail=f'{len(refs)} referenced, {n_distinct} distinct plots')
         finally:
+            try:
+                mplmod.MplPlot.save = saved_save
+            except NameError:
+                pass
             shutil.rmtree(base, ignore_errors=True)
     return harness
 
